@@ -53,7 +53,15 @@ func runSolver(ctx context.Context, sp solverSpec, file string, timeout time.Dur
 	_ = cmd.Run()
 	secs := time.Since(t0).Seconds()
 	text := out.String()
-	first := strings.TrimSpace(strings.SplitN(text, "\n", 2)[0])
+	first := ""
+	for _, ln := range strings.Split(text, "\n") {
+		ln = strings.TrimSpace(ln)
+		if ln == "" || strings.HasPrefix(ln, "WARNING") || strings.HasPrefix(ln, "(warning") {
+			continue
+		}
+		first = ln
+		break
+	}
 	switch first {
 	case "unsat", "sat", "unknown":
 		return first, text, secs
